@@ -34,6 +34,21 @@ type log06 struct {
 
 func (l *log06) add(s string) { l.mu.Lock(); l.ev = append(l.ev, s); l.mu.Unlock() }
 
+// add1 appends s and reports whether s had not been logged before.
+func (l *log06) add1(s string) bool {
+	l.mu.Lock()
+	defer l.mu.Unlock()
+	first := true
+	for _, e := range l.ev {
+		if e == s {
+			first = false
+			break
+		}
+	}
+	l.ev = append(l.ev, s)
+	return first
+}
+
 func logOf06(q *query_context.Context) *log06 {
 	v, _ := q.GetValue(logKey06)
 	return v.(*log06)
@@ -42,12 +57,18 @@ func logOf06(q *query_context.Context) *log06 {
 type matcher06 struct{ id int }
 
 func (m matcher06) Match(_ context.Context, q *query_context.Context) (bool, error) {
-	logOf06(q).add(fmt.Sprintf("m%d", m.id))
+	name := fmt.Sprintf("m%d", m.id)
+	l := logOf06(q)
+	first := l.add1(name)
 	switch m.id / 1000 {
 	case 0:
 		return true, nil
 	case 1:
 		return false, nil
+	case 3: // like the stock has_resp: depends on what earlier actions did
+		return q.R() != nil, nil
+	case 4: // true only the first time it is asked about this query
+		return first, nil
 	}
 	return false, fmt.Errorf("m%d", m.id)
 }
@@ -56,10 +77,20 @@ type plain06 struct{ id int }
 
 func (p plain06) Exec(_ context.Context, q *query_context.Context) error {
 	logOf06(q).add(fmt.Sprintf("a%d", p.id))
-	if p.id/1000 != 0 {
-		return fmt.Errorf("a%d", p.id)
+	switch p.id / 1000 {
+	case 0:
+		return nil
+	case 2: // answers the query, like a forwarder or a cache hit
+		m := new(dns.Msg)
+		m.SetReply(q.Q())
+		m.Rcode = p.id % 1000
+		q.SetResponse(m)
+		return nil
+	case 3: // drops the response
+		q.SetResponse(nil)
+		return nil
 	}
-	return nil
+	return fmt.Errorf("a%d", p.id)
 }
 
 type wrap06 struct{ id int }
@@ -120,6 +151,22 @@ type rule06 struct {
 	act string   // a5 A r R3 J0 G1 w2000
 }
 
+// plainAct06: a plain action: logs only, answers the query (rcode 0..5),
+// drops the response, or (rarely) fails.
+func (r *Run) plainAct06(errOneIn int) string {
+	id := r.Rng.Intn(50)
+	switch k := r.Rng.Intn(10); {
+	case k < 3:
+		id = 2000 + r.Rng.Intn(6)
+	case k < 4:
+		id = 3000 + r.Rng.Intn(3)
+	}
+	if errOneIn > 0 && r.Rng.Intn(errOneIn) == 0 {
+		id = 1000 + r.Rng.Intn(50)
+	}
+	return fmt.Sprintf("a%d", id)
+}
+
 func (r *Run) genSeq06(idx int, depthOK bool) []rule06 {
 	n := r.Rng.Intn(6)
 	if r.Rng.Intn(8) == 0 {
@@ -128,19 +175,32 @@ func (r *Run) genSeq06(idx int, depthOK bool) []rule06 {
 	var out []rule06
 	for i := 0; i < n; i++ {
 		var rl rule06
-		for j := r.Rng.Intn(4); j > 0; j-- {
-			kind := []int{0, 0, 0, 1, 1, 2}[r.Rng.Intn(6)]
-			if kind == 2 && r.Rng.Intn(3) != 0 {
-				kind = 0
+		if i > 0 && len(out[i-1].ms) > 0 && r.Rng.Intn(5) == 0 {
+			// the same condition written again on the next line
+			rl.ms = append(rl.ms, out[i-1].ms...)
+		} else {
+			for j := r.Rng.Intn(4); j > 0; j-- {
+				kind := []int{0, 0, 0, 1, 1, 2}[r.Rng.Intn(6)]
+				if kind == 2 && r.Rng.Intn(3) != 0 {
+					kind = 0
+				}
+				num := r.Rng.Intn(20)
+				if r.Rng.Intn(5) == 0 { // result depends on what ran before
+					kind, num = 3+r.Rng.Intn(2), r.Rng.Intn(3)
+				}
+				m := fmt.Sprintf("m%d", kind*1000+num)
+				if r.Rng.Intn(3) == 0 {
+					m = "!" + m
+				}
+				rl.ms = append(rl.ms, m)
 			}
-			m := fmt.Sprintf("m%d", kind*1000+r.Rng.Intn(20))
-			if r.Rng.Intn(3) == 0 {
-				m = "!" + m
-			}
-			rl.ms = append(rl.ms, m)
 		}
 		switch k := r.Rng.Intn(20); {
 		case k < 7:
+			if r.Rng.Intn(3) == 0 {
+				rl.act = r.plainAct06(12)
+				break
+			}
 			id := r.Rng.Intn(50)
 			if r.Rng.Intn(12) == 0 {
 				id += 1000
@@ -162,6 +222,60 @@ func (r *Run) genSeq06(idx int, depthOK bool) []rule06 {
 		out = append(out, rl)
 	}
 	return out
+}
+
+// genRepeat06: the "same condition on consecutive lines" idiom
+// (`!has_resp -> primary`, `!has_resp -> secondary`, ...): blocks of 2..4
+// adjacent rules that share one non-empty matcher list in which at least one
+// matcher's result depends on what earlier actions did (response present /
+// asked before), with mostly plain actions that answer the query, drop the
+// response or only log. Every rule has to evaluate its own matchers on the
+// state its predecessors left behind.
+func (r *Run) genRepeat06(idx int) []rule06 {
+	var s []rule06
+	if r.Rng.Intn(3) == 0 {
+		s = append(s, rule06{act: fmt.Sprintf("a%d", 2000+r.Rng.Intn(6))})
+	}
+	for b := 1 + r.Rng.Intn(3); b > 0; b-- {
+		var ms []string
+		neg := func(m string) string {
+			if r.Rng.Intn(2) == 0 {
+				return "!" + m
+			}
+			return m
+		}
+		for j := 1 + r.Rng.Intn(2); j > 0; j-- {
+			ms = append(ms, neg(fmt.Sprintf("m%d", (3+r.Rng.Intn(2))*1000+r.Rng.Intn(3))))
+		}
+		if r.Rng.Intn(4) == 0 { // plus a constant one, before or after
+			c := neg(fmt.Sprintf("m%d", []int{0, 0, 0, 1000, 2000}[r.Rng.Intn(5)]+r.Rng.Intn(20)))
+			if r.Rng.Intn(2) == 0 {
+				ms = append([]string{c}, ms...)
+			} else {
+				ms = append(ms, c)
+			}
+		}
+		for j := 2 + r.Rng.Intn(3); j > 0; j-- {
+			act := r.plainAct06(25)
+			if r.Rng.Intn(8) == 0 {
+				acts := []string{"A", "r", "R3", fmt.Sprintf("w%d", []int{0, 2, 3, 4}[r.Rng.Intn(4)]*1000+r.Rng.Intn(20))}
+				if idx > 0 {
+					acts = append(acts, fmt.Sprintf("J%d", r.Rng.Intn(idx)), fmt.Sprintf("G%d", r.Rng.Intn(idx)))
+				}
+				act = acts[r.Rng.Intn(len(acts))]
+			}
+			s = append(s, rule06{ms: append([]string(nil), ms...), act: act})
+		}
+		switch r.Rng.Intn(4) {
+		case 0:
+			s = append(s, rule06{act: r.plainAct06(0)})
+		case 1:
+			if idx > 0 {
+				s = append(s, rule06{act: fmt.Sprintf("J%d", r.Rng.Intn(idx))})
+			}
+		}
+	}
+	return s
 }
 
 func seqOp06(s []rule06) string {
@@ -194,11 +308,26 @@ func refRun06(seqs [][]rule06, rules []rule06, k func(*st06) error, s *st06) err
 		name := strings.TrimPrefix(m, "!")
 		var id int
 		fmt.Sscanf(name, "m%d", &id)
+		first := true
+		for _, e := range s.log {
+			if e == name {
+				first = false
+			}
+		}
 		s.log = append(s.log, name)
-		if id/1000 >= 2 {
+		var v bool
+		switch id / 1000 {
+		case 0:
+			v = true
+		case 1:
+			v = false
+		case 3:
+			v = s.resp >= 0
+		case 4:
+			v = first
+		default:
 			return errRef06
 		}
-		v := id/1000 == 0
 		if v == rev { // false after negation
 			return refRun06(seqs, rs, k, s)
 		}
@@ -209,7 +338,13 @@ func refRun06(seqs [][]rule06, rules []rule06, k func(*st06) error, s *st06) err
 	case 'a':
 		fmt.Sscanf(a, "a%d", &id)
 		s.log = append(s.log, a)
-		if id/1000 != 0 {
+		switch id / 1000 {
+		case 0:
+		case 2:
+			s.resp = id % 1000
+		case 3:
+			s.resp = -1
+		default:
 			return errRef06
 		}
 		return refRun06(seqs, rs, k, s)
@@ -306,6 +441,15 @@ func runC06(r *Run) {
 				seqs = append(seqs, s)
 			}
 		}
+		if it%3 == 1 {
+			// repeated-condition stream (see genRepeat06)
+			seqs = nil
+			nseq = 1 + r.Rng.Intn(3)
+			for i := 0; i < nseq; i++ {
+				seqs = append(seqs, r.genRepeat06(i))
+			}
+			r.Count("stream:repeated-condition")
+		}
 		var ops []string
 		for _, s := range seqs {
 			ops = append(ops, seqOp06(s))
@@ -399,13 +543,24 @@ func runC06(r *Run) {
 		if rerr != nil {
 			want = "err " + strings.Join(ref.log, ",")
 		}
-		nontrivial := false
+		nontrivial, repeated := false, false
 		for _, s := range seqs {
-			for _, rl := range s {
+			for i, rl := range s {
 				if strings.ContainsAny(rl.act[:1], "JGrw") {
 					nontrivial = true
 				}
+				if i > 0 && len(rl.ms) > 0 && strings.Join(rl.ms, "+") == strings.Join(s[i-1].ms, "+") {
+					repeated = true
+					for _, m := range rl.ms {
+						if k := strings.TrimPrefix(m, "!"); len(k) == 5 && (k[1] == '3' || k[1] == '4') {
+							nontrivial = true // a repeated condition whose value the actions can change
+						}
+					}
+				}
 			}
+		}
+		if repeated {
+			r.Count("adjacent rules with the same condition")
 		}
 		r.Eval(line, nontrivial && len(lg.ev) > 2)
 		r.Count(fmt.Sprintf("seqs=%d", nseq))
@@ -418,5 +573,5 @@ func runC06(r *Run) {
 			r.Fail("the sequence did not execute as its rules say", map[string]any{"program": line, "got": out, "want": want})
 		}
 	}
-	r.Finish("1..4 sequences built bottom-up (later ones jump/goto earlier ones), 0..5 rules each, 0..3 matchers per rule (true/false/error, a third negated with '!' in three spellings), actions: plain (ok/error), accept, reject, return, jump, goto, wrappers that continue / stop / post-process / run the continuation twice / run it concurrently on two copies; rendered to rule text and loaded by sequence.NewSequence; non-trivial = uses jump/goto/return/wrapper and logs more than 2 events")
+	r.Finish("1..4 sequences built bottom-up (later ones jump/goto earlier ones), 0..5 rules each, 0..3 matchers per rule (true/false/error/response-present/first-time-asked, a third negated with '!' in three spellings), actions: plain (log only / answer the query / drop the response / error), accept, reject, return, jump, goto, wrappers that continue / stop / post-process / run the continuation twice / run it concurrently on two copies; a third of the programs are built from blocks of 2..4 adjacent rules that repeat one condition whose value the actions change (the `!has_resp -> primary; !has_resp -> secondary` idiom), so every rule must evaluate its own matchers on the state left by its predecessors; rendered to rule text and loaded by sequence.NewSequence; non-trivial = uses jump/goto/return/wrapper or a repeated state-dependent condition and logs more than 2 events")
 }
